@@ -132,8 +132,20 @@ func buildPre(kind int, prec uint32, mode uint8) *Dec {
 		z.SetPrec(38)
 		z.SetBitsExp(buf, 12)
 	case preInexact:
-		z.SetPrec(2).SetMode(decimal.AwayFromZero)
-		z.SetInt64(-12345)
+		// the receiver's previous operation was inexact, and it already has the requested attributes
+		// (SetPrec/SetMode afterwards would reset the accuracy to Exact)
+		z.SetMode(decimal.RoundingMode(mode))
+		if prec == 0 {
+			z.SetPrec(3).SetInt64(-12345)
+			z.SetPrec(0) // value -> -0 with accuracy Above, precision 0
+		} else {
+			z.SetPrec(uint(prec))
+			z.Quo(new(Dec).SetInt64(-1), new(Dec).SetInt64(3))
+		}
+		if z.Acc() == 0 {
+			panic("buildPre(preInexact): accuracy is Exact")
+		}
+		return z
 	case preBigDirty:
 		buf := make([]Word, 40)
 		for i := range buf {
@@ -173,7 +185,7 @@ func execPart(spec *OpSpec, part []int, vals []*Opnd, prec uint32, mode uint8, p
 			zAliased = true
 			a := *vals[i-1]
 			a.Prec, a.Mode = prec, mode
-			z = a.Build()
+			z = a.buildVariant(recvVariant)
 		}
 	}
 	if !zAliased {
@@ -237,4 +249,56 @@ func judgeFull(o Obs, pv interface{}, isNaN bool, exp RRes, wantAcc bool) string
 		return fmt.Sprintf("Acc() = %d, want %d; got %s, want %s", o.Acc, exp.Acc, o, exp)
 	}
 	return ""
+}
+
+// recvVariant selects how a receiver that is also an operand is materialised by execPart:
+// 0 = tight buffer, accuracy Exact; 1 = accuracy != Exact (obtained by a real rounding);
+// 2 = large dirty buffer (capacity 8× the length, stale words beyond the mantissa).
+var recvVariant = 0
+
+const numRecvVariants = 3
+
+func (a *Opnd) buildVariant(v int) *Dec {
+	if a.Form != fFinite {
+		return a.Build()
+	}
+	switch v {
+	case 1:
+		// round a slightly different value to a.Prec digits under a.Mode so that the stored value is exactly a.V
+		for _, dir := range []bool{false, true} {
+			tiny := Val{Form: fFinite, Neg: a.Neg != dir, Coef: big1, E10: a.V.E10 - 25}
+			src := addExact(a.V, tiny)
+			if src.Form != fFinite || src.Exp() > MaxExp || src.E10 < MinExp+100 {
+				continue
+			}
+			so := mkCoef(src.Neg, src.Coef, src.E10, uint32(ndigits(src.Coef)), 0)
+			z := fresh(a.Prec, a.Mode)
+			z.Set(so.Build())
+			if o := Observe(z); o.Acc != 0 && o.Val().Equal(a.V) {
+				return z
+			}
+		}
+		return a.Build()
+	case 2:
+		n := len(a.Words)
+		buf := make([]Word, 8*n+6)
+		for i := range buf {
+			buf[i] = Word(BW - 1 - uint64(i%5))
+		}
+		for i, w := range a.Words {
+			buf[i] = Word(w)
+		}
+		z := new(Dec)
+		z.SetMode(decimal.RoundingMode(a.Mode)).SetPrec(uint(a.Prec))
+		z.SetBitsExp(buf[:n], a.Exp)
+		if a.Neg {
+			z.Neg(z)
+		}
+		z.SetMode(decimal.RoundingMode(a.Mode))
+		if o := Observe(z); !o.Val().Equal(a.V) || o.Prec != a.Prec || o.Mode != a.Mode {
+			panic("buildVariant: constructed " + o.String() + " for " + a.String())
+		}
+		return z
+	}
+	return a.Build()
 }
